@@ -1,5 +1,6 @@
 import WzVerif.Driver.Proto
 import WzVerif.Model.Debugger
+import WzVerif.Driver.PyPrelude
 namespace Wz.Driver.C20
 open Wz Wz.Proto Wz.Dbg
 
@@ -92,6 +93,6 @@ def handle : Handler
           hostTrusted := hostOk, cookie := cookie, pinRight := pinRight, atConsole := atConsole }
       some (toString (outcomeCode o) ++ "|" ++ toString f.toNat)
     | _, _, _, _, _, _, _, _, _, _, _, _ => some badArgs
-  | _, _ => none
+  | cmd, args => Wz.Driver.PyPrelude.handle cmd args  -- `pre.*`: primitives of Util/PyPrelude
 
 end Wz.Driver.C20
